@@ -83,6 +83,9 @@ func (w *World) deliver(dir string, pop bool) string {
 	nt.seen[to][m.Digest] = true
 	nt.mu.Unlock()
 	ev := Ev{"n": to, "k": m.Kind, "dup": dup, "lk": w.leaks(m.Payload), "sid": m.Label}
+	if m.Kind == "cancel" && strings.Contains(string(m.Payload), "is already in use") {
+		ev["why"] = "inuse" // the cancel that refuses a request carrying a known swap id
+	}
 	pre := ""
 	if v, ok := nd.svc.VerifSnapshot()[w.idOf(m.Label)]; ok {
 		pre = v.Current
@@ -172,6 +175,11 @@ func (w *World) RunStep(st *Step) {
 			w.Emit("lost", Ev{"n": st.D[1:], "k": m.Kind})
 		}
 	case "dropall":
+		for _, d := range []string{"AB", "BA"} {
+			for _, k := range w.Net.kinds(d) {
+				w.Emit("lost", Ev{"n": d[1:], "k": k})
+			}
+		}
 		if w.Net.clear() == 0 {
 			res = "noop"
 		}
